@@ -332,6 +332,11 @@ func (l *Lexer) Next() (token.Token, error) {
 		return tok, nil
 	}
 	l.readChar()
+	if tok.Type == token.NEWLINE && l.prevToken.Type == token.PERIOD {
+		// A line that is broken after a period goes on with the name of an
+		// attribute: the period stays the token that came before
+		return tok, nil
+	}
 	l.prevToken = tok
 	return tok, nil
 }
